@@ -45,3 +45,7 @@ package ch
 //@   ensures c.conn.olen > old(c.conn.olen) ==> c.conn.out[old(c.conn.olen)] == proto.ClientCodeCancel {cancel-code}
 //@   ensures err == nil ==> c.conn.olen == old(c.conn.olen) + 1 {cancel-sent}
 //@   ensures forall k in 0..old(c.conn.olen) :: c.conn.out[k] == old(c.conn.out[k]) {earlier-output-untouched}
+
+//@ contract Dial(ctx, opt) (c, err) props(C11,C13)
+//@   ensures err == nil ==> c != nil
+//@   ensures err != nil ==> c == nil
